@@ -130,6 +130,14 @@ class _StatePointDict(JSONAttrDict):
                 os.replace(job.path, new_workspace)
             except OSError as error:
                 os.replace(tmp_statepoint_file, self.filename)  # rollback
+                # The in-memory data has already been modified, restore it too.
+                with self._suspend_sync:
+                    data = self._load_from_resource()
+                    self._update(data, _validate=False)
+                    if calc_id(self) != old_id:
+                        # _update keeps values that merely compare equal (1, 1.0, True).
+                        self._data.clear()
+                        self._update(data, _validate=False)
                 if error.errno in (errno.EEXIST, errno.ENOTEMPTY, errno.EACCES):
                     raise DestinationExistsError(new_id)
                 else:
